@@ -17,7 +17,9 @@ import aasgen
 import codec_terms
 from codec_terms import q
 
-THEOREMS = ["C03_codec_roundtrip", "C03_json_compat", "C03_json_roundtrip", "C03_no_incompatible_rows", "C03_example"]
+THEOREMS = ["C03_codec_roundtrip", "C03_json_compat", "C03_json_roundtrip", "C03_no_incompatible_rows", "C03_example",
+            "C03_identifiables_dispatch", "C03_store_roundtrip"]
+
 PRELUDE = ("From Coq Require Import List ZArith String.\n"
            "From Basyx Require Import model.Codec model.CodecObs gen.Gen_JsonRules.\nOpen Scope string_scope.")
 
@@ -132,6 +134,7 @@ def run(chk):
         chk.tie_broken("meta-crosscheck", probs)
 
     # ---- oracle on whole stores (three stream kinds) and single objects
+    store_terms = []
     for i in range(n_store):
         how = ("text", "binary", "path")[i % 3]
         g = aasgen.Gen(rng, strings="json" if i % 2 else "plain", depth=3)
@@ -144,6 +147,16 @@ def run(chk):
         chk.count("store:" + how)
         for k, n in g.features.items():
             chk.count("elem:" + k, n)
+        if i % 2 == 0 and len(store_terms) < (40 if quick else 300):
+            try:
+                from basyx.aas.adapter.json import object_store_to_json
+                falsy = set()
+                vals = [codec_terms.to_value(o, falsy) for o in store]
+                h = codec_terms.hdoc(0, json.loads(object_store_to_json(store)))
+                store_terms.append("([" + "; ".join(v.term() for v in vals) + "], ([" +
+                                   "; ".join(q(x) for x in sorted(falsy)) + "] : list string), " + common.coq_z(h) + ")")
+            except ValueError:
+                pass
         d = oracle_store(store, how)
         if d:
             chk.fail(sig_of_diff(d), f"JSON {how} round trip of a generated store differs: {d}",
@@ -191,6 +204,14 @@ def run(chk):
             chk.tie_broken("correspondence-dec", {"n": len(bad2), "class": cls, "sdk_json": real})
         if len(chk.samples) < 3:
             chk.samples.append({"class": meta[0][0], "sdk_json": meta[0][2], "coq_case_prefix": terms[0][:400]})
+    if gen_ok and store_terms:
+        bad3, errs3 = common.run_mismatch_shards("C03st", PRELUDE, store_terms, "(check_store json_tables json_meta)",
+                                                 shard=3, jobs=16)
+        chk.traces += common.run_mismatch_shards.evaluated - len(bad3)
+        for e in errs3[:2]:
+            chk.tie_broken("correspondence-run", e)
+        if bad3:
+            chk.tie_broken("correspondence-store", {"n": len(bad3), "first_case_prefix": store_terms[bad3[0]][:1500]})
     chk.trusted = [
         "Coq 8.16.1 kernel; vm_compute for the finite compat check over the generated tables and for the correspondence; no native_compute",
         "translator tools/py2coq/jsonrules.py (fail-closed Python-ast; flattens the isinstance blocks of the two abstract helpers with the live class hierarchy)",
